@@ -37,6 +37,7 @@ type world struct {
 	held     map[*stepper.Peer][]byte // second halves of split replies not yet delivered
 	choices  bool                     // replica reads enabled: record which node each queued fragment was routed to
 	dead     bool                     // the loop returned ErrEngineShutdown: the process would have ended here
+	undial0  map[string]bool          // which nodes refused connections when the history began
 }
 
 type worldCfg struct {
@@ -122,7 +123,10 @@ func newWorldOn(s *stepper.S, cfg worldCfg) (*world, error) {
 	}
 	s.L.SetSlots(sets)
 	w := &world{s: s, cfg: cfg, answered: map[*stepper.Peer]int{}, shaken: map[*stepper.Peer]bool{}, closedC: map[int]bool{}, closedS: map[*stepper.Peer]bool{},
-		reqSeq: map[int]int{}, tagset: map[string]bool{}}
+		reqSeq: map[int]int{}, tagset: map[string]bool{}, undial0: map[string]bool{}}
+	for a, u := range cfg.undial {
+		w.undial0[a] = u
+	}
 	lastWorld = w
 	return w, nil
 }
@@ -709,7 +713,7 @@ func layouts(r *rng.R) worldCfg {
 func (w *world) inputSx() sx.V {
 	var pools, ranges []sx.V
 	for _, a := range w.cfg.nodes {
-		pools = append(pools, sx.L(sx.S(a), sx.Bool(!w.cfg.undial[a])))
+		pools = append(pools, sx.L(sx.S(a), sx.Bool(!w.undial0[a])))
 	}
 	for _, r := range w.cfg.ranges {
 		ranges = append(ranges, sx.L(sx.I(r[0].(int)), sx.I(r[1].(int)), sx.S(r[2].(string))))
@@ -777,6 +781,16 @@ func runHistory(seed uint64, idx int, quick bool) (in sx.V, out sx.V, tags []str
 			if r.Chance(60) {
 				w.probe(int64(r.U64() >> 1))
 				w.handshakes(r)
+			} else {
+				w.runTasks()
+			}
+		case 19:
+			// a node stops / starts accepting connections (what is connected stays connected)
+			if r.Chance(50) && len(cfg.nodes) > 1 {
+				a := cfg.nodes[r.Range(1, len(cfg.nodes)-1)]
+				cfg.undial[a] = !cfg.undial[a]
+				w.record(sx.L(sx.I(12), sx.S(a), sx.Bool(!cfg.undial[a])))
+				w.tagset["dialability-changes"] = true
 			} else {
 				w.runTasks()
 			}
